@@ -117,6 +117,8 @@ class ExprMixin:
                 parts.append(v.value)
             elif isinstance(v, ast.FormattedValue):
                 val = self.eval(st, v.value)
+                if isinstance(val, Opt):
+                    val = None if self.decide(st, val.isnone, f"fstr.none@{e.lineno}") else val.payload
                 if v.conversion == 114:     # !r
                     parts.append(self.ctx.opaque_str(st, "repr"))
                     continue
@@ -160,7 +162,23 @@ class ExprMixin:
             if n is None:
                 raise OutOfSubset("string repetition by a symbolic count")
             return s_ * n
-        if isinstance(op, ast.BitOr) or isinstance(op, ast.BitAnd):
+        if isinstance(op, (ast.RShift, ast.LShift)):
+            k = concrete_int(b)
+            if k is None or k < 0:
+                raise OutOfSubset("shift by a symbolic amount")
+            ca = concrete_int(a)
+            if ca is not None:
+                return ca >> k if isinstance(op, ast.RShift) else ca << k
+            return ops.num(a) / (2 ** k) if isinstance(op, ast.RShift) else ops.num(a) * (2 ** k)
+        if isinstance(op, ast.BitAnd):
+            ca, cb = concrete_int(a), concrete_int(b)
+            if ca is not None and cb is not None:
+                return ca & cb
+            mask, x = (cb, a) if cb is not None else (ca, b)
+            if mask is None or mask < 0 or (mask & (mask + 1)) != 0:
+                raise OutOfSubset("bitwise and with a non 2^k-1 mask")
+            return ops.num(x) % (mask + 1)
+        if isinstance(op, ast.BitOr):
             raise OutOfSubset("bit operators on scalars")
         sym = _BIN.get(type(op))
         if sym is None:
